@@ -25,8 +25,11 @@ Oracle: reference = ref/interp.py on the assembled bytecode; candidate = the Jav
 re-wrapped into one class per shard, compiled by the real javac and executed by java with a generated driver that
 prints, per program, the result or the exception class name for every tuple.  Exact string comparison.
   decompile raises              -> <key>:decompile-exception
-  javac rejects the method      -> <key>:javac-reject      (attributed through javac's error line numbers; every
-                                                             rejected method is then removed and the rest recompiled)
+  javac rejects the method      -> <key>:javac-reject      (attributed through javac's error line numbers; errors of
+                                                             the lexer/parser can cascade, so such methods are confirmed
+                                                             one-source-file-per-method in a single extra javac run;
+                                                             rejected methods are removed and the rest recompiled;
+                                                             bisection if nothing can be attributed)
   result differs                -> <key>:value-mismatch / <key>:exception-mismatch / <key>:nontermination
 Keys are input-side: tier + opcode family (mnemonic without /2addr,/lit8,/lit16) for tier A, tier + op pair for B,
 tier + skeleton id for C (the op instantiation is part of the program id in the witness, not of the key).  A tier B pair
@@ -1388,20 +1391,32 @@ def compile_and_run(work, cls, progs, srcs, acc):
             else:
                 bad.setdefault(hit, m.group(3))
         # Errors of javac's attribution phase are local to the method they are reported in.  Lexer/parser errors can
-        # cascade into the following methods, so such a method is confirmed by compiling it alone.
-        for i in sorted(bad):
-            if bad[i].startswith(_LOCAL_ERRORS):
-                continue
-            t, _ = java_file(cls, progs, srcs, [i])
-            with open(path, "w") as f:
-                f.write(t)
-            rr = subprocess.run(JAVAC + ["-d", work, path], capture_output=True, text=True)
+        # cascade into the following methods, so those methods are confirmed: one source file per method (errors are
+        # then attributed by file name), all in a single javac run.
+        unsure = [i for i in sorted(bad) if not bad[i].startswith(_LOCAL_ERRORS)]
+        if unsure:
+            sub = os.path.join(work, "confirm%d" % rounds)
+            os.mkdir(sub)
+            files = []
+            for i in unsure:
+                fn = os.path.join(sub, "%sx%d.java" % (cls, i))
+                with open(fn, "w") as f:
+                    f.write("class %sx%d {\n%s\n}\n" % (cls, i, srcs[i].strip("\n")))
+                files.append(fn)
+            rr = subprocess.run(JAVAC + ["-d", sub] + files, capture_output=True, text=True)
             acc.count("javac_runs")
-            if rr.returncode == 0:
-                del bad[i]
-            else:
-                msgs = [m.group(3) for m in map(_ERR.match, rr.stderr.splitlines()) if m]
-                bad[i] = (msgs or [bad[i]])[0]
+            confirmed = {}
+            for ln in rr.stderr.splitlines():
+                m = _ERR.match(ln)
+                if m and m.group(1).startswith(cls + "x"):
+                    confirmed.setdefault(int(m.group(1)[len(cls) + 1:]), m.group(3))
+            if rr.returncode != 0 and not confirmed:
+                raise RuntimeError("javac confirmation run failed without attributable errors:\n" + rr.stderr[:3000])
+            for i in unsure:
+                if i in confirmed:
+                    bad[i] = confirmed[i]
+                else:
+                    del bad[i]
         if not bad:
             # no error line falls inside a method (e.g. unbalanced braces reported at end of file): bisect
             def bisect(ids):
